@@ -552,12 +552,22 @@ def c02(rep, tier, seed, wd):
                 m = mutate(m, rng)
             muts.append({"bytes": m, "src": "mutant of generated message %d" % g["id"]})
     gcs = [{"bytes": g["bytes"], "src": "generated message %d" % g["id"]} for g in gm]
+    # every attribute type code must come out of the parser as the code that is in the buffer (no aliasing): a request
+    # with one attribute of each type (quick: all codes below 0x100, around 0x8000, and every 13th; thorough: all 65536)
+    tset = sorted(set(list(range(0, 0x100)) + list(range(0x7f00, 0x8100)) + list(range(0xff00, 0x10000)) +
+                      (list(range(0, 0x10000, 13)) if tier == "quick" else list(range(0x10000)))))
+    for t in tset:
+        vl = 4 if t == 32808 else (20 if t == 8 else (32 if t == 28 else t % 3))
+        body = [t >> 8, t & 255, 0, vl] + [t & 255] * vl + [0] * ((4 - vl % 4) % 4) + [0x80, 0x22, 0, 1, 65, 0, 0, 0]
+        hdrb = [0, 1, 0, len(body), 0x21, 0x12, 0xa4, 0x42] + [t & 255, t >> 8] * 6
+        gcs.append({"bytes": hdrb + body, "lookup": [t, 0x20], "src": "request with one attribute of type %#06x" % t})
     # a parser is a function of the buffer alone: each original is parsed right before its own mutants
-    per = len(muts) // max(1, len(gcs))
+    per = len(muts) // max(1, len(gm))
     inter = []
     for k, g in enumerate(gcs):
         inter.append(g)
-        inter += muts[k * per:(k + 1) * per]
+        if k < len(gm):
+            inter += muts[k * per:(k + 1) * per]
     n_mut = len(muts)
     gcs, muts = inter, muts[len(gm) * per:]
     huge = huge_messages(rng, 3 if tier == "quick" else 5)
@@ -984,6 +994,15 @@ def compare_attr(case, obs, exp):
         return must, asis
     vd = exp["verdict"]
     if vd == "asis":
+        # whether such a value decodes is left open; if it does, the implementation's own serialisation paths must
+        # still agree with each other (C12 does not depend on the value being a legal encoding)
+        enc = d.get("enc") if d.get("ok") else None
+        if enc:
+            wb = enc.get("write", {})
+            if enc.get("raw_bytes") != wb.get("bytes") or enc.get("padded_len") != len(enc.get("raw_bytes") or []) \
+                    or wb.get("n") != enc.get("padded_len") or enc.get("length") != enc.get("raw_len") or wb.get("tail_intact") is not True:
+                must.append((["C12"], "serialisation paths of a decoded value disagree with each other: to_raw().to_bytes() %d bytes (length %s), write_into %s bytes (length() %s)" % (
+                    len(enc.get("raw_bytes") or []), enc.get("raw_len"), wb.get("n"), enc.get("length"))))
         return must, asis
     if vd == "invalid":
         if d.get("ok"):
